@@ -56,13 +56,14 @@ def _arg_slice(off: int, width: int) -> pt.Expr:
 class EncodeBuilder:
     """builds the ABI value of type t from its parts with set(...)"""
 
-    def __init__(self, t, lens: List[int], literal: Optional[Any] = None):
+    def __init__(self, t, lens: List[int], literal: Optional[Any] = None, int_exprs: bool = False):
         self.t = t
         self.layout: List[Tuple] = []
         leaf_layout(t, LenPlan(lens), self.layout)
         self.total = (self.layout[-1][3] + self.layout[-1][4]) if self.layout else 0
         self.lens = lens
         self.literal = literal          # concrete value tree: leaves are set from Python literals
+        self.int_exprs = int_exprs      # ... integer leaves from Int(<literal>) expressions instead
         self._li = 0
         self.steps: List[pt.Expr] = []
 
@@ -79,7 +80,10 @@ class EncodeBuilder:
             self._li += 1
             if k in ("string", "dbytes"):
                 plan.next()
-            if lit is not None:
+            if lit is not None and self.int_exprs and k in ("byte", "uint", "bool"):
+                # the literal is given as a PyTeal Int expression, not as a Python int
+                self.steps.append(inst.set(pt.Int(int(lit))))
+            elif lit is not None:
                 if k == "address":
                     self.steps.append(inst.set(bytes(lit)))
                 elif k == "string":
@@ -111,10 +115,10 @@ class EncodeBuilder:
         raise ValueError(t)
 
 
-def encode_program(t, lens: List[int], backend: str, literal=None) -> pt.Expr:
+def encode_program(t, lens: List[int], backend: str, literal=None, int_exprs: bool = False) -> pt.Expr:
     """main-routine (scratch) or subroutine (frame at v8+) program that logs value.encode()"""
     def body():
-        b = EncodeBuilder(t, lens, literal)
+        b = EncodeBuilder(t, lens, literal, int_exprs)
         root = b.build()
         return pt.Seq(*b.steps, pt.Log(root.encode()))
 
